@@ -117,3 +117,10 @@ prop("C15",
                   "spa identifiers are 'SPA..' style (not '1', not starting with IOS/AND): hello decode precondition, see C04",
                   "task cancellation is requested (Task.cancel) -- that a cancelled task terminates is C10"],
      explanation="per-reply contract and invariant of the discovery callback; discover loop invariant under a ghost clock: exit conditions, time bound, endpoint closed, helper tasks cancelled")
+
+prop("C08",
+     level="proof",
+     assumptions=["events raised concurrently by other tasks while a client event handler is suspended are not explored (sequential semantics of _handle_event)",
+                  "the client's handle_event does not modify manager state",
+                  "spa-raised events presuppose a spa object; RUNNING_SPA_WATER_CARE_ERROR presupposes a facade; CONNECTION_STARTED presupposes a configured identifier (ReconnectButton needs unique_id)"],
+     explanation="_handle_event compared with the lifecycle table for every event in every invariant state (ground enumeration through the real code), delivery-point assertions in the abstract handle_event, ready/teardown ghost bracket, try/finally brackets of locate/connect incl. exceptional exits, reset post-state")
